@@ -28,7 +28,7 @@ RULE = (
     "settings {default; free/SMT instantiations 1 and 3; optimized Z3 queries off; unique trees on; insertion methods 1, 3; unsat support on} "
     "(all settings on a core of constraints, the default on all) x up to 5 (thorough 8) consecutive solve() calls, every returned tree checked; "
     "random answers: a fixed default schedule for all instances, plus every single deviation within the first 12 (thorough 30) choice points on the "
-    "core; grammar kv (header:word=number) x 9 nested-SMT scenarios (an atom over an element and one over a part of it that is tied to the header) x "
+    "core; grammar kv (header:word=number) x 11 nested-SMT scenarios (an atom over an element and one over a part of it that is tied to the header) x "
     "4 settings x 9 (thorough 14) calls; a schema is a constraint schema; non-trivial iff the solver returned at least one solution for it"
 )
 ASSUMPTIONS = [
@@ -94,6 +94,10 @@ def scenarios():
     mw = (("b", "<word>", "w"), ("t", "="), ("b", "<num>", "n"))
     out.append(q("forall", "<item>", "i", "start", ("and", ln("w", "=", 3), q("forall", "<hdr>", "h", "start", eqv("n", "h"))), mw))
     out.append(("and", q("forall", "<item>", "i", "start", ln("i", "=", 7)), q("forall", "<item>", "j", "start", q("forall", "<hdr>", "h", "start", eqv("n", "h")), mw)))
+    # two-variable atoms that lose a variable once the other one is instantiated (len(w) > -1, len(w) >= 0)
+    h0 = q("forall", "<hdr>", "h", "start", ("smt", ["=", ["str.to.int", ["v", "h"]], ["i", 0]]))
+    for rel, rhs in ((">", ["-", ["str.to.int", ["v", "g"]], ["i", 1]]), (">=", ["str.to.int", ["v", "g"]])):
+        out.append(("and", h0, q("forall", "<hdr>", "g", "start", q("forall", "<word>", "w", "start", ("smt", [rel, ["str.len", ["v", "w"]], rhs])))))
     return out
 
 
